@@ -2,15 +2,16 @@
 # tools/seedtest.sh <patch.diff> <Cxx> [tier]: apply a seeded change to /repo, run the check, undo it.
 set -u
 patch=$1; id=$2; tier=${3:-quick}
+VDIR=$(cd "$(dirname "$(readlink -f "$0")")/.." && pwd)
 REPO=${VERIF_REPO:-/repo}
 cd "$REPO" || exit 2
 if [ -n "$(git status --porcelain --untracked-files=no)" ]; then echo "/repo not clean"; exit 2; fi
 if ! git apply --3way "$patch" 2>/tmp/seedtest.err && ! git apply "$patch" 2>>/tmp/seedtest.err; then cat /tmp/seedtest.err; echo "PATCH DOES NOT APPLY"; git reset -q --hard HEAD; exit 2; fi
 git reset -q 2>/dev/null
-( cd "$(dirname "$(readlink -f "$0")")/.." && ./check "$id" "$tier" ) 2>&1 | grep -E "^(VIOLATION|KNOWN-FINDING|INCONCLUSIVE|C[0-9]+ )|signature=" | head -12
+( cd "$VDIR" && ./check "$id" "$tier" ) 2>&1 | grep -E "^(VIOLATION|KNOWN-FINDING|INCONCLUSIVE|C[0-9]+ )|signature=" | head -12
 rc=${PIPESTATUS[0]}
 git reset -q --hard HEAD
 # evidence written by a run against a changed tree is not evidence about /repo: put the committed files back
-git -C "$(dirname "$(readlink -f "$0")")/.." checkout -- evidence 2>/dev/null
+git -C "$VDIR" checkout -- evidence 2>/dev/null
 git status --porcelain --untracked-files=no | head
 echo "check exit=$rc"
